@@ -532,7 +532,15 @@ func (r *Reconciler) findDependencyVersionToUpdate(ctx context.Context, ref name
 	}
 
 	sort.Sort(semver.Collection(availableVersions))
-	currentVersion := semver.MustParse(insVer)
+	// The installed version is not necessarily a semantic version: the
+	// dependency may be installed by digest or at a tag such as "latest". We
+	// cannot order such a version relative to the available ones, so there is
+	// no version to move it to.
+	currentVersion, err := semver.NewVersion(insVer)
+	if err != nil {
+		log.Debug(errFindDependencyUpgrade, "error", err)
+		return "", errors.Errorf(errFmtNoValidVersion, dep.Identifier(), dep.GetParentConstraints())
+	}
 	var targetVersion *semver.Version
 
 	// We aim to find the lowest version that satisfies all parent constraints and is greater than the current version.
